@@ -310,6 +310,7 @@ inductive GTy where
   | chanR (t : GTy)                           -- `<-chan T`
   | chanS (t : GTy)                           -- `chan<- T`
   | struct (fs : GTy)                         -- `fnil`/`fcons` spine; field i is named F<i>
+  | structT (tag : Name) (fs : GTy)           -- the same with the tag `json:"<tag>"` on the first field
   | fnil
   | fcons (t : GTy) (rest : GTy)
   | func                                      -- `func()`
